@@ -239,7 +239,7 @@ def run(ctx):
                         continue
                     for k_ in pt.atoms:
                         flat_ = " ".join(str(y_) for y_ in k_)
-                        if k_ == ("nz", "node->" + adj) or ("node->sf" in flat_ and name == "find_start_node") or ("node->lef" in flat_ and "n_frames" in flat_ and name == "find_end_node"):
+                        if k_ == ("nz", "node->" + adj) or ("node->sf" in flat_ and name == "find_start_node") or ("node->lef" in flat_ and k_[0] == "==" and name == "find_end_node"):      # which frame it is compared with is the candidate-test clause's business
                             continue
                         if flat_ == "== -1 node->wid":
                             continue        # the word-string macro of the log message
